@@ -30,7 +30,12 @@ ValueVerdict(e) ==
        ELSE IF o.t = "exc" THEN {"raises_on_defined_expression"}
        ELSE {"float_result_wrong"}
 \* o.t = "mutated": the assignment handed to evaluate() was not the same afterwards (a key inserted by a careless look-up)
-Verdict(e) == IF e.obs.t = "mutated" THEN {"evaluate_modifies_the_assignment"} ELSE SignVerdict(e) \cup ValueVerdict(e)
+TypeVerdict(e) == IF IntTyped(e.term, e.ctx) /\ e.obs.t \in {"float", "inf", "nan"} /\ ~(e.obs.t = "float" /\ e.obs.whole.ok)
+                  THEN {"integer_expression_not_integer_typed"} ELSE {}
+\* (a result of millions of bits is not shipped to the validator: o.huge - judged by type and sign only)
+Verdict(e) == IF e.obs.t = "mutated" THEN {"evaluate_modifies_the_assignment"}
+              ELSE IF e.obs.t = "int" /\ e.obs.huge THEN SignVerdict(e) \cup (IF IntTyped(e.term, e.ctx) THEN {} ELSE {"note_not_judged"})
+              ELSE SignVerdict(e) \cup TypeVerdict(e) \cup ValueVerdict(e)
 VARIABLES i, v
 Init == i \in 1..N /\ v = {"pending"}
 Next == v = {"pending"} /\ v' = Verdict(Events[i]) /\ UNCHANGED i
